@@ -45,6 +45,12 @@ def run(repo: Repo, chk: Check) -> None:
     chk.assumptions += ['the chosen fee is below 2^21 mutez (its own encoding grows by at most 2 bytes over the placeholder)',
                         'limits and counter are already filled when the size is measured (checked by the order of replace_map)']
     mi = repo.module(F)
+    # ---- memory across calls first (shared rule, sa/statelint.py): a remembered answer is a violation on its own, and the interpretation below
+    # does not model module-level caches
+    chk.set_clause('C24.M')
+    from ..statelint import check_memory
+    check_memory(repo, chk, ['pytezos.operation.fees.', 'pytezos.operation.group.'],
+                 'the gas / size priced is the one of an earlier operation')
     chk.set_clause('C24.1')
     consts = {n: repo.const(f'{F}.{n}') for n in ('MINIMAL_FEES', 'MINIMAL_MUTEZ_PER_BYTE', 'MINIMAL_MUTEZ_PER_GAS_UNIT')}
     chk.ob('R-TABLE', f'{F}.MINIMAL_FEES', consts['MINIMAL_FEES'] == 100, 'minimal fees 100 mutez', mi.relpath, consts, what='node default is 100 mutez')
@@ -135,6 +141,24 @@ def run(repo: Repo, chk: Check) -> None:
                    what=f'{name}: the size-independent part of the fee is {const} mutez; branch (32) + a {siglen}-byte signature + fee-field growth + rounding need '
                         f'{need} on top of nothing else: a {kinds} account gets a fee below the node default minimum')
 
+    # a simulation that FAILS (run_operation answers with an error): autofill either fails as well, or whatever group it hands back instead is
+    # priced for all of its contents (falling back to fill() prices the first content only - see the known findings on fill)
+    for n in (1, 2):
+        name = f'autofill, {n} content{"s" if n > 1 else ""}, simulation fails'
+        it = Interp(repo, GroupHooks(repo, inline_fees=True, simulation_fails=True), max_depth=8)
+        res = it.run_paths(lambda i, n=n: total_fee(call(i, autofill, mk_group(n))))
+        returned = [p for p in res if p.outcome == 'return']
+        unpaid = []
+        for p in returned:
+            form = lin(p.value)
+            sizes = {k: v for k, v in form[1].items() if k.startswith('SIZE_')} if form else {}
+            if form is None or any(sizes.get(f'SIZE_{i}', 0) < 1 for i in range(n)):
+                unpaid.append(lin_repr(p.value)[:300] if form else vrepr(p.value)[:300])
+        chk.ob('R-FLOW', autofill.qualname, bool(res) and not unpaid, f'{name}: no group is handed back with a fee that leaves contents unpaid', autofill.loc,
+               {'paths': [p.outcome for p in res], 'fees_of_returned_groups': unpaid},
+               what=f'{name}: autofill swallows the failure and returns a group whose fee is {unpaid[:1]}: contents beyond the first are not paid for, the group is '
+                    'below the node minimum')
+
     # the content whose size is priced is the content that is written: when the size of content i is measured, every field other than the
     # fee itself already has the value the returned group carries (limits, counter, source, a self-registration delegate ...)
     chk.set_clause('C24.3')
@@ -170,9 +194,3 @@ def run(repo: Repo, chk: Check) -> None:
                what=f'{name}: the size priced is that of a content whose {[d["field"] for d in diffs][:3]} still differ(s) from what is written '
                     f'({diffs[:1]}): the operation injected is longer than the one paid for')
     chk.minimum('size measurements', nmeas, 6)
-
-    # ---- memory across calls (shared rule, sa/statelint.py) ----------------------------------------------------------------------------------
-    chk.set_clause('C24.M')
-    from ..statelint import check_memory
-    check_memory(repo, chk, ['pytezos.operation.fees.', 'pytezos.operation.group.'],
-                 'the gas / size priced is the one of an earlier operation')
